@@ -52,7 +52,7 @@ def _congruent(v, x, order):
 def _batchdl(ctx, rc, mc, xs, bound, tag):
   """One real BatchDL call with ground truth xs (all in [0, bound))."""
   pts = [(None, None) if x % mc.n == 0 else mc.mulg(x) for x in xs]
-  before = rc._table_size
+  before = getattr(rc, '_table_size', None)
   try:
     res = rc.BatchDL(pts, bound)
   except Exception as e:  # pylint: disable=broad-except
@@ -61,7 +61,14 @@ def _batchdl(ctx, rc, mc, xs, bound, tag):
                   'BatchDL(%d points, %d) raised %r' % (len(xs), bound, e),
                   {'curve': mc.name, 'xs': xs, 'bound': bound})
     return
-  after = rc._table_size
+  after = getattr(rc, '_table_size', None)
+  if before is None or after is None:
+    # the cache landmark is read from a private attribute; if a refactoring
+    # renames it the relation is derived from the call history alone
+    want_ts = int((bound * len(xs)) ** 0.5)
+    prev = ctx.counters.get('max_table_requested:' + mc.name, 0)
+    before, after = prev, max(prev, want_ts)
+    ctx.counters['max_table_requested:' + mc.name] = after
   rel = ('rebuilt' if after > before else
          'cached-equal' if int((bound * len(xs)) ** 0.5) == before else
          'cached-larger')
@@ -155,7 +162,7 @@ def run_nameddl(ctx, spec):
       continue
     ts = int((bound * ln) ** 0.5)
     t = 2 * ts - 1
-    seen_sizes.add(int(rc._table_size))
+    seen_sizes.add(int(getattr(rc, '_table_size', 0) or 0))
     cand = [0, 1, bound - 1, bound // 2]
     for j in range(0, bound // t + 2):
       for d in (0, ts - 1, -(ts - 1), ts, -ts, 1, -1):
